@@ -357,6 +357,7 @@ class Machine:
         self.stats = {"closure_calls": 0, "cont_invocations": 0, "cont_reentries": 0, "set": 0, "errors_raised": 0,
                       "handlers_run": 0, "winds": 0}
         install_prims(self)
+        install_extras(self)
         # higher-order library procedures are ordinary (re-entrant) Scheme code, applied left to right
         for f in parse(HOF_SOURCE):
             self.eval_top(f)
@@ -1296,6 +1297,45 @@ def install_prims(m):
 
 def canon_eq(a, b):
     return canon(a) == canon(b)
+
+
+class ThreadHandle:
+    def __init__(self, v):
+        self.v = v
+
+
+def install_extras(m):
+    """Threads (run inline: the generated thread bodies share no mutable state with their spawner while
+    they run), immutable-vector-push, and the verification builtins as no-ops."""
+    g = m.globals.vars
+
+    def waiting():
+        v = yield None
+        return ThreadHandle(v)
+
+    def spawn(mach, args, k):
+        gen = waiting()
+        next(gen)
+        return ("apply", args[0], [], ("prim-k", gen, k))
+    g[Sym("spawn-native-thread")] = [Prim("spawn-native-thread", None, 1, 1, special=spawn)]
+
+    def join(h):
+        need(isinstance(h, ThreadHandle), "thread-join!: not a thread")
+        return h.v
+    g[Sym("thread-join!")] = [Prim("thread-join!", join, 1, 1)]
+
+    def ivpush(v, x):
+        need(isinstance(v, IVector), "immutable-vector-push expects an immutable vector")
+        return IVector(list(v.items) + [x])
+    g[Sym("immutable-vector-push")] = [Prim("immutable-vector-push", ivpush, 2, 2)]
+    def cweh(mach, args, k):
+        handler, thunk = args
+        saved = mach.handlers
+        mach.handlers = mach.handlers + ((handler, k, mach.winders),)
+        return ("apply", thunk, [], ("handler-pop", saved, k))
+    g[Sym("call-with-exception-handler")] = [Prim("call-with-exception-handler", None, 2, 2, special=cweh)]
+    for name in ("#%verif-full-gc", "#%gc-collect"):
+        g[Sym(name)] = [Prim(name, lambda: VOID, 0, 0)]
 
 
 # ---------------------------------------------------------------------------------------------- source emitter
